@@ -112,6 +112,17 @@ func ReplayBegins(w *ev.Writer, o Opts) error {
 					return err
 				}
 			}
+			if site == "liteclient.LiteapiRequestDecoder" {
+				data, _ := hex.DecodeString(str("hex"))
+				for i := range targets {
+					if targets[i].Ty == str("ty") && targets[i].Op == "EncBare" && len(data) >= 4 {
+						id := uint32(data[0]) | uint32(data[1])<<8 | uint32(data[2])<<16 | uint32(data[3])<<24
+						(&tlDrv{r: r, s: s}).feedRequest(targets[i], class, id, data[4:])
+						break
+					}
+				}
+				continue
+			}
 			var tg *c10.Target
 			for i := range targets {
 				if targets[i].Ty == str("ty") && targets[i].Op == str("op") && (str("go") == "" || targets[i].T.String() == str("go")) {
